@@ -169,6 +169,9 @@ def check_result(lines, res, msyms, pie, unreachable=False):
         for p in sec.symbolic_expressions:
             if (name, p) not in expected_positions:
                 return f"unexpected symbolic expression at {name}+{p}"
+    w = asmmt.fresh_proxies(res, msyms)
+    if w:
+        return w
     # ---- data conversion: a block that holds no instruction and that nothing reaches is data (unless it starts an executable section)
     for name, sec in res.sections.items():
         for k, b in enumerate(sec.blocks):
